@@ -10,10 +10,10 @@ ENV = ["src/crypto/bign/bign_sign.c", "src/crypto/bign/bign_misc.c", "src/crypto
 STRIP = {"bign/bign_lcl.c": ["bignStart", "bignStart_keep"], "zz/zz_mul.c": ["zzMul", "zzMod"], "math/ec.c": ["!_deep$|^ecNAFWidth$"],
          "math/ecp.c": ["!^ecpIsOnA_deep$"], "belt/belt_compr.c": ["!_deep$"], "belt/belt_wbl.c": ["!_keep$"], "math/qr.c": ["!_deep$|^qrCalcSlideWidth$"], "belt/belt_hash.c": ["beltHash_keep", "beltHashStart", "beltHashStepH", "beltHashStepG", "beltHashStepG2", "beltHashStepV", "beltHashStepV2"]}
 GROUPS = []
-FN = dict(sign="bignSign", verify="bignVerify", keypairgen="bignKeypairGen", keypairval="bignKeypairVal", pubkeyval="bignPubkeyVal", pubkeycalc="bignPubkeyCalc", dh="bignDH", sign2="bignSign2", idsign2="bignIdSign2", idsign="bignIdSign", idextract="bignIdExtract", keywrap="bignKeyWrap", keyunwrap="bignKeyUnwrap")
+FN = dict(sign="bignSign", verify="bignVerify", keypairgen="bignKeypairGen", keypairval="bignKeypairVal", pubkeyval="bignPubkeyVal", pubkeycalc="bignPubkeyCalc", dh="bignDH", sign2="bignSign2", idsign2="bignIdSign2", idsign="bignIdSign", idextract="bignIdExtract", keywrap="bignKeyWrap", keyunwrap="bignKeyUnwrap", idverify="bignIdVerify")
 for l in (128, 192, 256):
-    for f in ("sign", "verify", "keypairgen", "keypairval", "pubkeyval", "pubkeycalc", "dh", "sign2", "idsign2", "idsign", "idextract", "keywrap", "keyunwrap"):
-        slow = (f == "dh" and l == 256) or (f in ("sign2", "idsign2", "keywrap", "keyunwrap", "idsign", "idextract") and l != 128)
+    for f in ("sign", "verify", "keypairgen", "keypairval", "pubkeyval", "pubkeycalc", "dh", "sign2", "idsign2", "idsign", "idextract", "keywrap", "keyunwrap", "idverify"):
+        slow = (f == "dh" and l == 256) or (f in ("sign2", "idsign2", "keywrap", "keyunwrap", "idsign", "idextract", "idverify") and l != 128)
         for tv in ((0, 1) if f in ("sign2", "idsign2", "keywrap", "keyunwrap") else (None,)):
             GROUPS.append(G("flow.%s.l%d%s" % (f, l, "" if tv is None else ".t%d" % tv), "harness/C02/flow.c", "h_" + f, ENV,
                             defs=["L=%d" % l] + ([] if tv is None else ["HAVE_T=%d" % tv]), stubs=["stubs/bign_env.c"], strip=STRIP,
@@ -37,4 +37,4 @@ ASSUMPTIONS = ["assumed contracts of the replaced callees (stubs/bign_env.c): bi
                "security level / operand size concrete per group; deterministic-signing model: at most three belt-wbl rounds"]
 TRUSTED = ["stubs/bign_env.c", "harness/ref.h"]
 NOT_COVERED = ["the algebra below the stubs: group law, field arithmetic, belt-hash, belt-wbl / KWP (C05, C01 and C06 territory)",
-               "bignIdVerify: native search only; bignKeyWrap / bignKeyUnwrap: key length 24 only"]
+               "bignKeyWrap / bignKeyUnwrap: key length 24 only"]
